@@ -56,7 +56,27 @@ MapPadTokens == Padded({<<"E", "R", "R", "O", "R">>}, MapSides)
 FilterPadTokens == Padded(PadWords, AllSides)
 ASSUME \A w \in PadWords, p \in AllSides : ParseLevel(p[1] \o w \o p[2]) = ParseLevel(w) /\ ParseLevel(w) # 0
 
+\* every spelling of every level (LevelParse.tla), cut at every length the lenient grammar accepts (1..Len)
+\* and at the first it rejects (the word and one more letter), in three letter cases, bare and followed by
+\* a digit / a bracket (the suffix classes that end a match).  Where two spellings of a level diverge
+\* (deb / dbg, war / wrn) and at the neighbouring lengths of the one-spelling levels (inf / info, err / erro)
+\* the map is asked as well.
+LoC(c) == IF c \in UpperSet THEN Lower[CHOOSE i \in 1..26 : UpperS[i] = c] ELSE c
+CasedW(w, mode) == [i \in 1..Len(w) |-> IF mode = 1 \/ (mode = 3 /\ i = 1) THEN w[i] ELSE LoC(w[i])]
+Spellings == {INFORMATION, DEBUG, DBG, ERROR, WARNING, WRN}
+Cut(w, n) == IF n <= Len(w) THEN SubSeq(w, 1, n) ELSE w \o <<"X">>
+PrefixSuffixes == {<<>>, <<"1">>, <<"(", "2", ")">>}
+PrefixTokens == {CasedW(Cut(w, n), mode) \o sfx : w \in Spellings, n \in 1..12, mode \in 1..3, sfx \in PrefixSuffixes}
+DivergingPrefixes == {<<"D", "E", "B">>, <<"D", "B", "G">>, <<"W", "A", "R">>, <<"W", "R", "N">>,
+                      <<"I", "N", "F">>, <<"I", "N", "F", "O">>, <<"E", "R", "R">>, <<"E", "R", "R", "O">>}
+MapPrefixTokens == {CasedW(w, 2) : w \in DivergingPrefixes} \cup {w \o <<"1">> : w \in {<<"D", "E", "B">>, <<"W", "A", "R">>}}
+ASSUME MapPrefixTokens \subseteq PrefixTokens
+\* every proper prefix and every whole spelling is a level, whatever the case and the suffix; one letter more is none
+ASSUME \A w \in Spellings : \A n \in 1..Len(w), mode \in 1..3, sfx \in PrefixSuffixes : ParseLevel(CasedW(Cut(w, n), mode) \o sfx) # 0
+ASSUME \A w \in Spellings : ParseLevel(Cut(w, Len(w) + 1)) = 0
+
 \* map: the token is also used in the module x token matrix of every MinLevelPathMap transition
-ASSUME PrintT(<<"TOKENS", ToJson({[text |-> t, lvl |-> ParseLevel(t), map |-> TRUE] : t \in LevelTokens \cup MapPadTokens}
-                                  \cup {[text |-> t, lvl |-> ParseLevel(t), map |-> FALSE] : t \in FilterPadTokens \ MapPadTokens})>>)
+ASSUME PrintT(<<"TOKENS", ToJson({[text |-> t, lvl |-> ParseLevel(t), map |-> TRUE] : t \in LevelTokens \cup MapPadTokens \cup MapPrefixTokens}
+                                  \cup {[text |-> t, lvl |-> ParseLevel(t), map |-> FALSE] :
+                                            t \in (FilterPadTokens \cup PrefixTokens) \ (LevelTokens \cup MapPadTokens \cup MapPrefixTokens)})>>)
 =============================================================================
